@@ -74,7 +74,7 @@ def effects(prog, f, depth=0, seen=None):
                                 (isinstance(rr, tuple) and rr[0] == "expr" and isinstance(rr[2], ast.Constant) and isinstance(rr[2].value, str)):
                             pass        # a pattern written in the source: compiles (or the module would not import cleanly under its tests)
                         else:
-                            local |= {"re.error", "OverflowError", "RecursionError"}
+                            local |= {"re.error", "OverflowError", "RecursionError", "ValueError"}
                             delegates.append(("re.compile", c, n))
                     elif kind == "ext":
                         if tgt in CALLEE_RAISES_ON_STR:
@@ -472,6 +472,12 @@ def run(ctx):
                         "cannot show that `%s` is truthy for every accepted string: check() turns a falsy result into a failure" % norm(v)[:60])
         # R13.3
         for (tgt, c, n) in delegates:
+            if tgt == "re.compile" and "regex" in names and (len(c.args) > 1 or c.keywords):
+                # "regex: the strings the engine can compile" is about re.compile(<string>): explicit flags change the language
+                # ("(?a)\\w" compiles, re.compile("(?a)\\w", re.UNICODE) does not)
+                r3.fail("%s|subset-delegate|re.compile-flags" % f.qual, site(f, c),
+                        "`%s` compiles the string under explicit flags: patterns whose own inline flags contradict them are refused although the engine compiles them" % norm(c)[:60])
+                continue
             if tgt not in SUPERSET_DELEGATES:
                 continue
             # a dominating shape test on the instance
@@ -527,4 +533,8 @@ def run(ctx):
                 r4.ok(site(f), "plain and compressed forms and an embedded IPv4 tail pass; a zone id or prefix length does not (evaluated on 14 strings)")
             else:
                 r4.fail("%s|zone-id" % f.qual, site(f), sem)
+    # R13.7: "for each format registered in FormatChecker.checkers ... and for the draft-specific checker objects": a checker built for
+    # a subset of formats (any iterable of names, walked once) really has the built-in functions for those names
+    from .c12 import rule_single_pass
+    rule_single_pass(ctx, "R13.7")
     return
